@@ -448,10 +448,10 @@ SPEC = {
              'missing input, label collision, overlapping keys) must raise a CircuitError or still keep the function. '
              'Non-trivial: touched gate has users or is an output; cone of >=2 gates.'),
     'assumptions': ['reference tables / snapshots from vlib'],
-    'subs': [Sub('rename', rename_cases, check_rename, {'quick': 1500, 'thorough': 20000}),
-             Sub('replace_inputs', repl_inputs_cases, check_replace_inputs, {'quick': 1000, 'thorough': 15000}),
-             Sub('remove_gate', remove_cases, check_remove, {'quick': 1000, 'thorough': 15000}),
-             Sub('replace_subcircuit', subcircuit_cases, check_subcircuit, {'quick': 2000, 'thorough': 30000})],
+    'subs': [Sub('rename', rename_cases, check_rename, {'quick': 1500, 'thorough': 100000}),
+             Sub('replace_inputs', repl_inputs_cases, check_replace_inputs, {'quick': 1000, 'thorough': 75000}),
+             Sub('remove_gate', remove_cases, check_remove, {'quick': 1000, 'thorough': 75000}),
+             Sub('replace_subcircuit', subcircuit_cases, check_subcircuit, {'quick': 2000, 'thorough': 150000})],
     'required_classes': {'rename': ['has_users', 'is_output', 'repeated_output', 'is_input', 'in_block', 'mode:existing',
                                     'mode:absent', 'dup_operand_use'],
                          'replace_inputs': ['both', 'non_input_rejected'],
